@@ -30,12 +30,13 @@ import re
 import shutil
 import subprocess
 import sys
+import tempfile
 import time
 import traceback
 from typing import Any, Dict, Iterable, List, Optional, Sequence, Tuple
 
 ID = "C22"
-GEN = ["SortSites"]
+GEN = ["SortSites", "WriteSites"]
 TARGETS = ["cpp", "csharp", "golang", "java", "jsonschema", "python", "typescript", "xsd"]
 PY = "/venv/bin/python"
 WORKERS = 6
@@ -87,7 +88,7 @@ def _worker_step(step: Dict[str, Any]) -> Dict[str, Any]:
 
     out, err = io.StringIO(), io.StringIO()
     mode = step.get("listing")
-    real_scandir, real_listdir = os.scandir, os.listdir
+    real_scandir, real_listdir, real_walk = os.scandir, os.listdir, os.walk
     cache_dir = pathlib.Path(tempfile.gettempdir())
     cache_before = any(cache_dir.glob("aas-core-codegen-*/model-*.pickle"))
     if mode:
@@ -97,7 +98,36 @@ def _worker_step(step: Dict[str, Any]) -> Dict[str, Any]:
         def listdir(path: Any = ".") -> Any:
             return [e.name for e in _ScandirProxy(real_scandir(path), mode)]
 
-        os.scandir, os.listdir = scandir, listdir  # type: ignore
+        def walk(top: Any, topdown: bool = True, onerror: Any = None, followlinks: bool = False) -> Any:
+            # ``os.walk`` of CPython 3.12 looks ``scandir`` up in the globals of ``os`` and is
+            # therefore reordered already; this re-implementation (same contract: symbolic links to
+            # directories are listed among the directories and only descended into with
+            # ``followlinks``) keeps the reordering independent of that implementation detail.
+            top = os.fspath(top)
+            try:
+                it = scandir(top)
+            except OSError as error:
+                if onerror is not None:
+                    onerror(error)
+                return
+            dirs: List[str] = []
+            nondirs: List[str] = []
+            for entry in it:
+                try:
+                    is_dir = entry.is_dir()
+                except OSError:
+                    is_dir = False
+                (dirs if is_dir else nondirs).append(entry.name)
+            if topdown:
+                yield top, dirs, nondirs
+            for d in list(dirs):
+                sub = os.path.join(top, d)
+                if followlinks or not os.path.islink(sub):
+                    yield from walk(sub, topdown, onerror, followlinks)
+            if not topdown:
+                yield top, dirs, nondirs
+
+        os.scandir, os.listdir, os.walk = scandir, listdir, walk  # type: ignore
     saved_argv = sys.argv
     sys.argv = ["aas-core-codegen", "--model_path", step["model"], "--snippets_dir", step["snippets"], "--output_dir", step["out"], "--target", step["target"]]
     try:
@@ -112,7 +142,7 @@ def _worker_step(step: Dict[str, Any]) -> Dict[str, Any]:
                 err.write("Traceback (most recent call last):\n" + "".join(traceback.format_exception_only(type(e), e)))
     finally:
         sys.argv = saved_argv
-        os.scandir, os.listdir = real_scandir, real_listdir  # type: ignore
+        os.scandir, os.listdir, os.walk = real_scandir, real_listdir, real_walk  # type: ignore
     return {"rc": rc, "stdout": out.getvalue(), "stderr": err.getvalue(), "cache_before": cache_before}
 
 
@@ -492,16 +522,113 @@ def gen_SortSites(repo: pathlib.Path) -> str:
     return "\n".join(lines)
 
 
+# --------------------------------------------------------------------------- Gen/WriteSites.lean
+
+_FS_READS = {
+    "exists", "is_file", "is_dir", "is_symlink", "stat", "lstat", "read_text", "read_bytes", "samefile", "iterdir", "glob", "rglob",
+    "getmtime", "getsize", "getctime", "isfile", "isdir", "islink", "lexists", "cmp", "cmpfiles", "listdir", "scandir", "walk", "readlink", "access",
+}
+_FS_WRITES = {"write_text", "write_bytes", "open", "rename", "unlink", "rmdir", "touch", "symlink_to", "hardlink_to", "link_to", "truncate", "rmtree", "copy", "copy2", "copyfile", "copytree", "move", "remove"}
+
+
+def scan_write_sites(repo: pathlib.Path) -> List[Dict[str, Any]]:
+    """Every place of ``aas_core_codegen/<target>/main.py`` that changes a file, per target: the function, the
+    call with the receiver and the text argument made anonymous, the file-system *queries* made anywhere in that
+    function (a write that depends on what the output directory already holds needs one), and the functions which are
+    handed the path.  Syntactic (not inter-procedural): the runs of the oracle on used output directories are the net
+    underneath."""
+    out: List[Dict[str, Any]] = []
+    for t in TARGETS:
+        mod = _parse(repo, f"aas_core_codegen/{t}/main.py")
+        for fn in [n for n in ast.walk(mod) if isinstance(n, (ast.FunctionDef, ast.AsyncFunctionDef))]:
+            calls = [n for n in ast.walk(fn) if isinstance(n, ast.Call)]
+            writes = []
+            for c in calls:
+                f = c.func
+                if isinstance(f, ast.Attribute) and f.attr in _FS_WRITES:
+                    if f.attr in ("replace", "remove", "copy", "move") and not (isinstance(f.value, ast.Name) and f.value.id in ("os", "shutil")):
+                        continue
+                    if f.attr == "open" and c.args and isinstance(c.args[0], ast.Constant) and isinstance(c.args[0].value, str) and not set(c.args[0].value) & set("wax+"):
+                        continue
+                    writes.append(c)
+                elif isinstance(f, ast.Name) and f.id == "open":
+                    writes.append(c)
+            if not writes:
+                continue
+            reads = sorted({c.func.attr for c in calls if isinstance(c.func, ast.Attribute) and c.func.attr in _FS_READS})
+            for c in writes:
+                f = c.func
+                recv = f.value.id if isinstance(f, ast.Attribute) and isinstance(f.value, ast.Name) else None
+                arg0 = c.args[0] if c.args else None
+
+                class Anon(ast.NodeTransformer):
+                    def visit_Call(self, n: ast.Call) -> ast.AST:
+                        if n is c:
+                            n = ast.Call(func=n.func, args=list(n.args), keywords=list(n.keywords))
+                            if recv is not None:
+                                n.func = ast.Attribute(value=ast.Name(id="_", ctx=ast.Load()), attr=f.attr, ctx=ast.Load())  # type: ignore
+                            if arg0 is not None and isinstance(arg0, (ast.Name, ast.Attribute)):
+                                n.args = [ast.Name(id="_", ctx=ast.Load())] + list(n.args[1:])
+                        return n
+
+                shape = ast.unparse(ast.fix_missing_locations(Anon().visit(c)))
+                passed = sorted(
+                    {
+                        ast.unparse(o.func)
+                        for o in calls
+                        if o is not c
+                        and recv is not None
+                        and any(isinstance(x, ast.Name) and x.id == recv for a in list(o.args) + [k.value for k in o.keywords] for x in ast.walk(a))
+                    }
+                )
+                out.append({"target": t, "function": fn.name, "call": shape, "fs_reads": reads, "path_passed_to": passed, "node": c, "recv": recv})
+    return out
+
+
+def gen_WriteSites(repo: pathlib.Path) -> str:
+    sites = scan_write_sites(repo)
+    if not sites:
+        raise ExtractError("no place where a generator writes a file was found in aas_core_codegen/<target>/main.py")
+    ls = lambda xs: "[" + ", ".join(_lean_str(x) for x in xs) + "]"  # noqa: E731
+    lines = [
+        HEADER.format(src="a scan of aas_core_codegen/<target>/main.py for file-changing calls").rstrip("\n"),
+        "namespace AasVerif.Gen.WriteSites",
+        "",
+        "/-- One call that changes a file: where, the call (receiver and text argument anonymous), the file-system",
+        "queries made in the same function, the functions that are handed the path. -/",
+        "structure Site where\n  target : String\n  function : String\n  call : String\n  fsReads : List String\n  pathPassedTo : List String\n  deriving DecidableEq, Repr",
+        "",
+        "def writeSites : List Site := [",
+        ",\n".join(
+            f"  {{ target := {_lean_str(x['target'])}, function := {_lean_str(x['function'])}, call := {_lean_str(x['call'])}, fsReads := {ls(x['fs_reads'])}, pathPassedTo := {ls(x['path_passed_to'])} }}"
+            for x in sites
+        )
+        + "]",
+        "",
+        "end AasVerif.Gen.WriteSites",
+        "",
+    ]
+    return "\n".join(lines)
+
+
 # --------------------------------------------------------------------------- cases
 
 
 class Case:
-    def __init__(self, model: str, target: str, model_path: pathlib.Path, snippets: pathlib.Path, failing: bool = False) -> None:
+    """One input of the program.  ``inline`` cases carry their files in the JSON itself
+    (``{"model_text": str | None, "snippets": {rel: {"t": text} | {"hex": bytes} | {"link": target}}}``)
+    and are materialised into the scratch directory, so that generated inputs (snippet trees with
+    broken symbolic links, random models) are replayable."""
+
+    def __init__(
+        self, model: str, target: str, model_path: pathlib.Path, snippets: pathlib.Path, failing: bool = False, inline: Optional[Dict[str, Any]] = None
+    ) -> None:
         self.model = model
         self.target = target
         self.model_path = model_path
         self.snippets = snippets
         self.failing = failing
+        self.inline = inline
 
     @property
     def id(self) -> str:
@@ -516,7 +643,49 @@ class Case:
                     pass
             return str(p)
 
-        return {"model": self.model, "target": self.target, "model_path": rel(self.model_path), "snippets": rel(self.snippets), "failing": self.failing}
+        d = {"model": self.model, "target": self.target, "model_path": rel(self.model_path), "snippets": rel(self.snippets), "failing": self.failing}
+        if self.inline is not None:
+            d["inline"] = self.inline
+            if self.inline.get("model_text") is not None:
+                d["model_path"] = "<inline>"
+            if self.inline.get("snippets") is not None:
+                d["snippets"] = "<inline>"
+        return d
+
+    def materialize(self, ctx: Ctx) -> "Case":
+        """Write the files of an inline case (idempotent)."""
+        if self.inline is None:
+            return self
+        key = hashlib.sha256(json.dumps(self.inline, sort_keys=True).encode()).hexdigest()[:16]
+        d = ctx.scratch() / "inline" / key
+        if self.inline.get("model_text") is not None:
+            self.model_path = d / "meta_model.py"
+        if self.inline.get("snippets") is not None:
+            self.snippets = d / "snippets"
+        if d.exists():
+            return self
+        d.mkdir(parents=True)
+        if self.inline.get("model_text") is not None:
+            self.model_path.write_text(self.inline["model_text"], encoding="utf-8")
+        if self.inline.get("snippets") is not None:
+            write_tree(self.snippets, self.inline["snippets"], sorted(self.inline["snippets"]))
+        return self
+
+
+def write_tree(root: pathlib.Path, files: Dict[str, Dict[str, str]], order: Sequence[str]) -> None:
+    """Create the entries of an inline tree in the given order (creation order = listing order
+    on some file systems)."""
+    root.mkdir(parents=True, exist_ok=True)
+    for rel in order:
+        spec = files[rel]
+        p = root / rel
+        p.parent.mkdir(parents=True, exist_ok=True)
+        if "link" in spec:
+            os.symlink(spec["link"], p)
+        elif "hex" in spec:
+            p.write_bytes(bytes.fromhex(spec["hex"]))
+        else:
+            p.write_bytes(spec["t"].encode("utf-8"))
 
 
 def _unrel(s: str) -> pathlib.Path:
@@ -528,7 +697,7 @@ def _unrel(s: str) -> pathlib.Path:
 
 
 def case_from_json(d: Dict[str, Any]) -> Case:
-    return Case(d["model"], d["target"], _unrel(d["model_path"]), _unrel(d["snippets"]), bool(d.get("failing")))
+    return Case(d["model"], d["target"], _unrel(d["model_path"]), _unrel(d["snippets"]), bool(d.get("failing")), d.get("inline"))
 
 
 def _base_snippets(ctx: Ctx, target: str) -> pathlib.Path:
@@ -611,31 +780,234 @@ def failing_cases(ctx: Ctx) -> List[Case]:
     return out
 
 
+def sets_cases(ctx: Ctx) -> List[Case]:
+    """The corpus model with >= 2 (mostly 3-4) items of every kind over which a generator iterates: patterns
+    added by descendants on inherited properties (parents with >= 1 pattern and with a length only), patterns on
+    own properties and constrained primitives, three enumerations as property types, constant sets with subsets,
+    classes sharing properties, a class with two bases."""
+    mp = CORPUS_DIR / "models" / "sets" / "meta_model.py"
+    return [Case("sets", t, mp, _base_snippets(ctx, t)) for t in TARGETS]
+
+
+_BAD_UTF8 = "ff fe 62 61 64 20 c3 28".replace(" ", "")
+
+
+def bad_tree_cases() -> List[Case]:
+    """Failing inputs whose independent errors are spread over several snippet sub-directories (siblings, nested,
+    top level), of every kind the reader reports: invalid key, not UTF-8, broken symbolic link.  The order of the
+    report must not depend on the order in which the directories are listed."""
+    ok = {"t": "something\n"}
+    trees: Dict[str, Dict[str, Dict[str, str]]] = {
+        # the minimal member of the class: two sub-directories with one error each
+        "bad_tree_two": {
+            "schema_base.json": {"t": "{}\n"},
+            "qualified_module_name.txt": {"t": "dummy\n"},
+            "Alpha/1st-snippet.txt": ok,
+            "Alpha/fine.txt": ok,
+            "Beta/2nd-snippet.txt": ok,
+            "Gamma/fine.txt": ok,
+        },
+        # siblings, errors of all kinds, some directories without errors in between
+        "bad_tree_siblings": {
+            "schema_base.json": {"t": "{}\n"},
+            "qualified_module_name.txt": {"t": "dummy\n"},
+            "Aa/bad-1.txt": ok,
+            "Aa/fine.txt": ok,
+            "Bb/bad 2.txt": ok,
+            "Bb/dangling.txt": {"link": "nowhere/at/all.txt"},
+            "Cc/fine.txt": ok,
+            "Dd/not_utf8.txt": {"hex": _BAD_UTF8},
+            "Ee/zz-bad.txt": ok,
+            "Ee/aa-bad.txt": ok,
+            "Ee/bad-1.txt": ok,  # the same file name as in Aa/: a tie for every order that looks at the name only
+            "Zz/9x.txt": ok,
+            "aa/lower-bad.txt": ok,
+        },
+        # nested: errors at the top level, in a directory, beneath it and in a deep leaf
+        "bad_tree_nested": {
+            "root_element.xml": {"t": "<root/>\n"},
+            "qualified_module_name.txt": {"t": "dummy\n"},
+            "top bad.txt": ok,
+            "Types/ok.txt": ok,
+            "Types/Item/bad-key.py": ok,
+            "Types/Item/deeper/also-bad.py": ok,
+            "Types/Other/not_utf8.py": {"hex": _BAD_UTF8},
+            "Types/Other/dangling.py": {"link": "../missing.py"},
+            "Verification/1x.py": ok,
+            "Verification/Item/bad-key.py": ok,  # the same directory and file name as beneath Types/
+            "Verification/sub/sub/sub/x y.py": ok,
+            "zz/last-bad.txt": ok,
+        },
+    }
+    out = []
+    dummy = CORPUS_DIR / "models" / "multi" / "meta_model.py"
+    for name, files in trees.items():
+        for t in (["jsonschema", "python"] if name != "bad_tree_nested" else ["xsd", "cpp"]):
+            out.append(Case(name, t, dummy, pathlib.Path("<inline>"), True, {"model_text": None, "snippets": files}))
+    return out
+
+
+# patterns without ``.``, negated classes and digits: greenery (XSD intersects the patterns on one value) handles these
+# quickly, and the XSD translator accepts what greenery prints for their intersections
+_TIGHT_PATTERNS = [
+    ("matches_lower", "^[a-z_]*$"),
+    ("matches_leading_letter", "^[a-z][a-z_]*$"),
+    ("matches_no_double_underscore", "^([a-z]|_[a-z])*_?$"),
+    ("matches_trailing_x", "^[a-z_]*[x-z]$"),
+    ("matches_no_q", "^[a-pr-z_]*$"),
+    ("matches_no_w", "^[a-vx-z_]*$"),
+    ("matches_short_words", "^[a-z]{0,4}(_[a-z]{0,4})*$"),
+    ("matches_not_empty", "^[a-z_]+$"),
+]
+
+
+def tightening_model(rng: random.Random) -> str:
+    """A random member of the class "descendants add several patterns / subsets on inherited properties":
+    a tree of classes under an abstract root with 1-3 string properties carrying 0-2 patterns (and sometimes a
+    length), every descendant adding 0-4 further patterns per inherited property, 2-4 enumerations used as
+    property types, a chain of constant sets."""
+    L: List[str] = ['"""A random meta-model whose descendants tighten inherited properties (C22)."""', "from enum import Enum", "from typing import List, Optional, Set", "", "from icontract import invariant", "", ""]
+    for fn, pat in _TIGHT_PATTERNS:
+        L += ["@verification", f"def {fn}(text: str) -> bool:", f'    """Check :paramref:`text` against a pattern."""', f'    pattern = "{pat}"', "    return match(pattern, text) is not None", "", ""]
+    n_enums = rng.choice([2, 3, 4])
+    enums = [f"Kind_{chr(97 + i)}" for i in range(n_enums)]
+    for e in enums:
+        L += [f"class {e}(Enum):", f'    """Represent {e}."""', ""]
+        for j in range(rng.choice([2, 3, 5])):
+            L += [f'    Literal_{j} = "{e.lower()}-{rng.choice("qwertz")}{j}"']
+        L += ["", ""]
+    pool = ["aa", "bb", "cc", "dd", "ee", "ff", "gg"]
+    rng.shuffle(pool)
+    L += ["Small_set: Set[str] = constant_set(", f"    values={json.dumps(pool[:2])},", '    description="Small set.",', ")", ""]
+    L += ["Middle_set: Set[str] = constant_set(", f"    values={json.dumps(pool[:4])},", '    description="Middle set.",', "    superset_of=[Small_set],", ")", ""]
+    L += ["Large_set: Set[str] = constant_set(", f"    values={json.dumps(pool)},", '    description="Large set.",', "    superset_of=[Middle_set],", ")", "", ""]
+    props = ["first_text", "second_text", "third_text"][: rng.choice([1, 2, 3])]
+    names = [fn for fn, _ in _TIGHT_PATTERNS]
+    have: Dict[str, Dict[str, List[str]]] = {}
+    set_level: Dict[str, int] = {}
+    sets = ["Large_set", "Middle_set", "Small_set"]
+
+    def inv(fn: str, p: str) -> List[str]:
+        return ["@invariant(", f"    lambda self: {fn}(self.{p}),", f'    "Property {p} shall satisfy {fn}.",', ")"]
+
+    # root
+    have["Root"] = {}
+    deco: List[str] = []
+    for p in props:
+        chosen = rng.sample(names, rng.choice([0, 1, 1, 2]))
+        have["Root"][p] = chosen
+        for fn in chosen:
+            deco += inv(fn, p)
+        if rng.random() < 0.5:
+            deco += ["@invariant(", f"    lambda self: len(self.{p}) <= {rng.choice([20, 30])},", f'    "Property {p} shall be short.",', ")"]
+    deco += ["@invariant(", "    lambda self: self.member in Large_set,", '    "Member shall be in the large set.",', ")"]
+    set_level["Root"] = 0
+    L += ["@abstract", "@serialization(with_model_type=True)"] + deco + ["class Root(DBC):", '    """Represent the root."""', ""]
+    for p in props:
+        L += [f"    {p}: str", f'    """Property {p}"""', ""]
+    L += ["    member: str", '    """Member of a set"""', "", f'    kind: "{enums[0]}"', '    """Kind"""', ""]
+    ctor_args = [f"{p}: str" for p in props] + ["member: str", f'kind: "{enums[0]}"']
+    ctor_names = props + ["member", "kind"]
+    L += ["    def __init__(self, " + ", ".join(ctor_args) + ") -> None:"] + [f"        self.{a} = {a}" for a in ctor_names] + ["", ""]
+    # descendants
+    classes = ["Root"]
+    abstract = {"Root"}
+    for i in range(rng.choice([2, 3, 4, 5])):
+        parent = rng.choice([c for c in classes if c in abstract] or ["Root"]) if rng.random() < 0.7 else rng.choice(classes)
+        if parent not in abstract:
+            parent = "Root"
+        name = f"Descendant_{chr(97 + i)}"
+        is_abstract = rng.random() < 0.35
+        deco = []
+        have[name] = {}
+        for p in props:
+            already = have[parent].get(p, [])
+            fresh = [n for n in names if n not in already]
+            add = rng.sample(fresh, min(len(fresh), rng.choice([0, 2, 3, 3, 4])))
+            have[name][p] = already + add
+            for fn in add:
+                deco += inv(fn, p)
+        lvl = min(2, set_level[parent] + rng.choice([0, 1]))
+        set_level[name] = lvl
+        if lvl > set_level[parent]:
+            deco += ["@invariant(", f"    lambda self: self.member in {sets[lvl]},", f'    "Member shall be in {sets[lvl]}.",', ")"]
+        own_enum = enums[(i + 1) % n_enums]
+        L += (["@abstract"] if is_abstract else []) + deco + [f"class {name}({parent}, DBC):", f'    """Represent {name}."""', ""]
+        L += [f'    extra_{chr(97 + i)}: Optional["{own_enum}"]', '    """Extra"""', ""]
+        # constructor: all inherited + own
+        chain_extras: List[Tuple[str, str]] = []
+        cur = parent
+        lineage = [parent]
+        while cur != "Root":
+            cur = _PARENT[cur]
+            lineage.append(cur)
+        for anc in reversed(lineage):
+            if anc != "Root":
+                chain_extras.append(_EXTRA[anc])
+        _PARENT[name] = parent
+        _EXTRA[name] = (f"extra_{chr(97 + i)}", own_enum)
+        inherited_args = ctor_args + [f'{n}: Optional["{e}"] = None' for n, e in chain_extras]
+        inherited_names = ctor_names + [n for n, _ in chain_extras]
+        L += ["    def __init__(self, " + ", ".join(inherited_args + [f'extra_{chr(97 + i)}: Optional["{own_enum}"] = None']) + ") -> None:"]
+        L += [f"        {parent}.__init__(self, " + ", ".join(f"{a}={a}" for a in inherited_names) + ")", f"        self.extra_{chr(97 + i)} = extra_{chr(97 + i)}", "", ""]
+        classes.append(name)
+        if is_abstract:
+            abstract.add(name)
+    # every abstract class needs a concrete descendant (several generators assert otherwise)
+    for k, a in enumerate([c for c in classes if c in abstract]):
+        if any(_PARENT.get(c) == a and c not in abstract for c in classes):
+            continue
+        lineage = [a]
+        while lineage[-1] != "Root":
+            lineage.append(_PARENT[lineage[-1]])
+        extras = [_EXTRA[x] for x in reversed(lineage) if x != "Root"]
+        args = ctor_args + [f'{n}: Optional["{e}"] = None' for n, e in extras]
+        argn = ctor_names + [n for n, _ in extras]
+        L += [f"class Leaf_{chr(97 + k)}({a}, DBC):", '    """Represent a leaf."""', "", "    def __init__(self, " + ", ".join(args) + ") -> None:"]
+        L += [f"        {a}.__init__(self, " + ", ".join(f"{x}={x}" for x in argn) + ")", "", ""]
+    L += ["class Container(DBC):", '    """Contain the things."""', "", '    things: List["Root"]', '    """Things"""', ""]
+    L += ['    def __init__(self, things: List["Root"]) -> None:', "        self.things = things", "", ""]
+    L += ['__version__ = "dummy"', '__xml_namespace__ = "https://dummy.com"', ""]
+    return "\n".join(L)
+
+
+_PARENT: Dict[str, str] = {}
+_EXTRA: Dict[str, Tuple[str, str]] = {}
+
+
+def random_cases(ctx: Ctx, n: int) -> List[Case]:
+    """Seeded random members of the tightening class, for the two schema targets (and python)."""
+    out: List[Case] = []
+    for i in range(n):
+        _PARENT.clear()
+        _EXTRA.clear()
+        text = tightening_model(ctx.rng)
+        for t in ["jsonschema", "xsd"] + (["python"] if i % 2 == 0 else []):
+            out.append(Case(f"tighten_{i}", t, pathlib.Path("<inline>"), _base_snippets(ctx, t), False, {"model_text": text, "snippets": None}))
+    return out
+
+
 # --------------------------------------------------------------------------- running
 
 
 def tree_digest(root: pathlib.Path) -> Dict[str, str]:
+    """{relative path: kind + sha256}.  Symbolic links are read through (the statement is about the bytes of the
+    output files, and a pre-existing output directory may well contain links); a link to nothing is ``dangling``."""
     out: Dict[str, str] = {}
     if not root.exists():
         return out
-    for dirpath, dirnames, filenames in os.walk(root):
+    for dirpath, dirnames, filenames in os.walk(root, followlinks=True):
         dirnames.sort()
         base = pathlib.Path(dirpath)
         for d in list(dirnames):
-            p = base / d
-            rel = p.relative_to(root).as_posix()
-            if p.is_symlink():
-                out[rel] = "link:" + os.readlink(p)
-                dirnames.remove(d)
-            else:
-                out[rel + "/"] = "dir"
+            out[(base / d).relative_to(root).as_posix() + "/"] = "dir"
         for f in sorted(filenames):
             p = base / f
             rel = p.relative_to(root).as_posix()
-            if p.is_symlink():
-                out[rel] = "link:" + os.readlink(p)
-            else:
+            try:
                 out[rel] = "file:" + hashlib.sha256(p.read_bytes()).hexdigest()
+            except OSError:
+                out[rel] = ("dangling:" + os.readlink(p)) if p.is_symlink() else "unreadable"
     return out
 
 
@@ -650,8 +1022,9 @@ def _env(hashseed: str, tmpdir: pathlib.Path) -> Dict[str, str]:
 
 
 def copy_snippets(src: pathlib.Path, dst: pathlib.Path, order: str, rng: random.Random) -> None:
-    """Copy a snippets tree creating the entries in a chosen order."""
-    files = sorted(p.relative_to(src).as_posix() for p in src.rglob("*") if p.is_file())
+    """Copy a snippets tree creating the entries (and with them their directories) in a chosen order;
+    symbolic links are re-created as links."""
+    files = sorted(p.relative_to(src).as_posix() for p in src.rglob("*") if p.is_symlink() or p.is_file())
     if order == "reversed":
         files.reverse()
     elif order == "shuffled":
@@ -659,7 +1032,48 @@ def copy_snippets(src: pathlib.Path, dst: pathlib.Path, order: str, rng: random.
     dst.mkdir(parents=True)
     for rel in files:
         (dst / rel).parent.mkdir(parents=True, exist_ok=True)
-        shutil.copyfile(src / rel, dst / rel)
+        if (src / rel).is_symlink():
+            os.symlink(os.readlink(src / rel), dst / rel)
+        else:
+            shutil.copyfile(src / rel, dst / rel)
+
+
+SHM = pathlib.Path("/dev/shm")
+
+
+def shm_available() -> bool:
+    """A second file system with another listing order (tmpfs lists by creation, ext4 by name hash)."""
+    return SHM.is_dir() and os.access(SHM, os.W_OK)
+
+
+# Histories of the output directory which differ from the fresh output only "invisibly": a previous generation
+# (= the reference output) whose files were altered in a way a lenient comparison would not see.
+PREV_KINDS = ["same", "crlf", "cr", "trailws", "finalnl", "bom", "samelen", "longer", "shorter", "perm", "symlink", "nbsp"]
+
+
+def _alter(kind: str, data: bytes) -> bytes:
+    if kind == "crlf":
+        return data.replace(b"\r\n", b"\n").replace(b"\n", b"\r\n")
+    if kind == "cr":
+        return data.replace(b"\r\n", b"\n").replace(b"\n", b"\r")
+    if kind == "trailws":
+        return data.replace(b"\n", b" \t\n") + b"  "
+    if kind == "finalnl":
+        return data[:-1] if data.endswith(b"\n") else data + b"\n"
+    if kind == "bom":
+        return b"\xef\xbb\xbf" + data
+    if kind == "nbsp":  # look-alike characters: no-break space for the first blank, trailing zero-width space
+        return data.replace(b" ", b"\xc2\xa0", 1) + b"\xe2\x80\x8b"
+    if kind in ("samelen", "perm", "symlink"):  # older content of the same length
+        for i, b in enumerate(data):
+            if 65 <= b <= 90 or 97 <= b <= 122:
+                return data[:i] + bytes([b ^ 0x20]) + data[i + 1 :]
+        return (b"#" + data[1:]) if data and data[:1] != b"#" else b"%" + data[1:]
+    if kind == "longer":
+        return data + b"\n// older, longer content\n" + data[-200:]
+    if kind == "shorter":
+        return data[: max(0, len(data) * 2 // 3)]
+    return data
 
 
 def natural_listing(d: pathlib.Path) -> List[str]:
@@ -741,6 +1155,12 @@ class Runner:
         self.root.mkdir(parents=True, exist_ok=True)
         self.refs: Dict[str, Dict[str, Any]] = {}
         self.counter = 0
+        self.foreign_dirs: List[pathlib.Path] = []  # directories outside the scratch directory (tmpfs)
+
+    def cleanup(self) -> None:
+        for d in self.foreign_dirs:
+            shutil.rmtree(d, ignore_errors=True)
+        self.foreign_dirs = []
 
     def _dir(self, tag: str) -> pathlib.Path:
         self.counter += 1
@@ -757,8 +1177,18 @@ class Runner:
         step.out = d / ("out" if not var.get("outloc") else "another output-dir with a longer näme/nested/deeper/o")
         out = step.out
         if var.get("snipcopy"):
-            step.snippets = d / ("sn_" + var["snipcopy"])
-            copy_snippets(case.snippets, step.snippets, var["snipcopy"], rng)
+            order = var["snipcopy"]
+            if order.startswith("shm:"):  # the copy lives on tmpfs (listing order = creation order)
+                order = order[4:]
+                if shm_available():
+                    base = pathlib.Path(tempfile.mkdtemp(prefix=f"aasverif-C22-{os.getpid()}-", dir=str(SHM)))
+                    self.foreign_dirs.append(base)
+                else:
+                    base = d
+                step.snippets = base / ("sn_" + order)
+            else:
+                step.snippets = d / ("sn_" + order)
+            copy_snippets(case.snippets, step.snippets, order, rng)
         pp = var.get("prepop")
         if pp:
             out.mkdir(parents=True)
@@ -787,6 +1217,35 @@ class Runner:
                     os.chmod(p, 0o444)
                 (out / "ro_dir").mkdir()
                 (out / "ro_dir" / "x").write_text("x")
+            elif pp.startswith("prev:"):
+                # a previous generation of the same input, every file altered "invisibly"
+                kind = pp[5:]
+                src = pathlib.Path(ref.get("out", ""))
+                if ref.get("out") and src.is_dir():
+                    shutil.copytree(src, out, dirs_exist_ok=True)
+                owned = sorted(rel for rel, dg in ref["tree"].items() if dg.startswith("file:"))
+                elsewhere = d / "elsewhere"
+                if kind == "symlink":
+                    # an owned directory which is a link to a directory elsewhere
+                    elsewhere.mkdir(exist_ok=True)
+                    tops = sorted({rel.split("/")[0] for rel, dg in ref["tree"].items() if dg == "dir" and rel.count("/") == 1})
+                    if tops and (out / tops[-1]).is_dir():
+                        (out / tops[-1]).rename(elsewhere / "moved_dir")
+                        os.symlink(str(elsewhere / "moved_dir"), out / tops[-1])
+                for n, rel in enumerate(owned):
+                    p = out / rel
+                    if not p.is_file():
+                        continue
+                    p.write_bytes(_alter(kind, p.read_bytes()))
+                    if kind == "perm":
+                        os.chmod(p, [0o444, 0o755, 0o400, 0o600][n % 4])
+                    elif kind == "symlink":
+                        tgt = elsewhere / f"{n}.old"
+                        if n % 5 == 4:  # a link to nothing
+                            p.unlink()
+                        else:
+                            p.rename(tgt)
+                        os.symlink(str(tgt) if n % 2 == 0 else os.path.relpath(tgt, os.path.realpath(p.parent)), p)
             elif pp == "obstruct":
                 dirs = sorted(rel for rel, dg in ref["tree"].items() if dg == "dir")
                 files = sorted(rel for rel, dg in ref["tree"].items() if dg.startswith("file:"))
@@ -985,15 +1444,66 @@ def plan_batches(ctx: Ctx, ok_cases: List[Case], bad_cases: List[Case], donors: 
             batches.append(Batch(f"seed{hs}-{bi}", hs, steps))
     # the real command line (argparse, module start-up): a few single-step processes
     cli_cases = [c for c in ok_cases if c.model == "multi"] + [c for c in bad_cases if (c.model, c.target) in (("bad_keys", "python"), ("missing_snippets", "cpp"), ("two_errors", "jsonschema"))]
+    # the unmodified command line on a snippets copy that lives on another file system (created in reverse order),
+    # and on the multi-item model under a random hash seed
+    cli_cases += [c for c in bad_cases if (c.model, c.target) in (("bad_tree_two", "jsonschema"), ("bad_tree_siblings", "python"), ("bad_tree_nested", "xsd"))]
+    cli_cases += [c for c in ok_cases if c.model == "sets" and c.target in ("jsonschema", "xsd")]
     if thorough:
         cli_cases = cli_cases + [c for c in ok_cases if c.model in ("list_of_classes", "aas_core_meta.v3")] + [c for c in bad_cases if c not in cli_cases]
     for k, c in enumerate(cli_cases):
         mod = "aas_core_codegen" if k % 3 == 2 else "aas_core_codegen.main"
         var = {"rseed": k, "outloc": k % 2 == 1}
+        if c.model.startswith("bad_tree"):
+            var["snipcopy"] = "shm:reversed" if k % 2 == 0 else "shm:shuffled"
         if k % 4 == 0 and not c.failing:
             var.update({"prepop": "stale", "donor": donors.get(c.target) if donors.get(c.target) != c.id else None})
         batches.append(Batch(f"cli-{k}", ["random", "1", "unset"][k % 3], [Step(c, var)], cli=mod))
     return batches
+
+
+ENUM_SEEDS = ["3", "4", "5", "6"]
+
+
+def plan_enumerated(
+    ok_enum: List[Case], schema_cases: List[Case], tree_cases: List[Case], bad_cases: List[Case], extra_ok: List[Case], thorough: bool
+) -> List[Batch]:
+    """The seed-independent slice (no ``ctx.rng``): four further hash seeds, each process running
+
+    (a) every schema-target case of the multi-item models and every failing input plainly (with the reference and
+        the three seeds of ``plan_batches`` that is >= 8 hash seeds for jsonschema and xsd, >= 4 for the SDK targets);
+    (b) every "invisible" history of the output directory (``PREV_KINDS``) for every target;
+    (c) every failing input whose errors stem from several places under every listing order: in-process
+        reordering (``os.scandir``/``os.listdir``/``os.walk``) sorted / reversed / two shuffles, and real copies
+        created in sorted / reversed / shuffled order on tmpfs and on the scratch file system.
+    """
+    seeds = ENUM_SEEDS + (["7", "8"] if thorough else [])
+    steps: Dict[str, List[Step]] = {hs: [] for hs in seeds}
+    k = 0
+
+    def put(case: Case, var: Dict[str, Any]) -> None:
+        nonlocal k
+        steps[seeds[k % len(seeds)]].append(Step(case, dict(var, rseed=k)))
+        k += 1
+
+    for c in ok_enum:
+        kinds = PREV_KINDS if c.model == "multi" else ["crlf", "samelen", "symlink", "same", "cr"]
+        for j, kind in enumerate(kinds):
+            put(c, {"prepop": "prev:" + kind, "outloc": (j % 3 == 2)})
+    for j, c in enumerate(extra_ok):  # other models (thorough: all fixtures): a rotating choice of three histories
+        for i in range(3):
+            put(c, {"prepop": "prev:" + PREV_KINDS[1 + (3 * j + i) % (len(PREV_KINDS) - 1)]})
+    listings = ["sorted", "reversed", "shuffle:1", "shuffle:2"] + (["shuffle:3", "shuffle:4", "shuffle:5"] if thorough else [])
+    for c in tree_cases:
+        for lst in listings:
+            put(c, {"listing": lst})
+        for order in ("sorted", "reversed", "shuffled"):
+            put(c, {"snipcopy": "shm:" + order})
+        put(c, {"snipcopy": "reversed", "listing": "reversed", "outloc": True})
+        put(c, {"snipcopy": "shm:shuffled", "listing": "shuffle:7"})
+    for hs in seeds:
+        for c in schema_cases + bad_cases:
+            steps[hs].append(Step(c, {"rseed": 0}))
+    return [Batch(f"enum-seed{hs}", hs, st) for hs, st in steps.items()]
 
 
 def oracle(ctx: Ctx) -> None:
@@ -1009,8 +1519,11 @@ def oracle(ctx: Ctx) -> None:
         if rest:
             chosen.append(ctx.rng.choice(rest))
         fixt = fixture_cases(ctx, chosen)
-    ok_cases = multi_cases() + fixt
-    bad_cases = failing_cases(ctx)
+    sets = sets_cases(ctx)
+    rand = random_cases(ctx, ctx.n(2, 10))
+    trees = bad_tree_cases()
+    ok_cases = multi_cases() + sets + fixt + rand
+    bad_cases = failing_cases(ctx) + trees
     cases = ok_cases + bad_cases
     by_id = {c.id: c for c in cases}
     for r in recorded:
@@ -1018,6 +1531,28 @@ def oracle(ctx: Ctx) -> None:
         if c.id not in by_id:
             by_id[c.id] = c
             cases.append(c)
+    for c in cases:
+        c.materialize(ctx)
+    try:
+        _oracle_run(ctx, runner, recorded, cases, by_id, ok_cases, bad_cases, sets, rand, trees, fixt, thorough)
+    finally:
+        runner.cleanup()
+
+
+def _oracle_run(
+    ctx: Ctx,
+    runner: "Runner",
+    recorded: List[Dict[str, Any]],
+    cases: List[Case],
+    by_id: Dict[str, Case],
+    ok_cases: List[Case],
+    bad_cases: List[Case],
+    sets: List[Case],
+    rand: List[Case],
+    trees: List[Case],
+    fixt: List[Case],
+    thorough: bool,
+) -> None:
     t0 = time.time()
     runner.references(cases)
     ctx.extra_cov["reference_runs"] = len(cases)
@@ -1045,6 +1580,17 @@ def oracle(ctx: Ctx) -> None:
         v.pop("cli", None)
         batches.append(Batch(f"corpus-{i}", hs, [Step(c, v)], cli=r.get("cli")))
     n_corpus = len(batches)
+    n_enum0 = len(batches)
+    multi = multi_cases()
+    batches += plan_enumerated(
+        ok_enum=[by_id[c.id] for c in multi] + sets,
+        schema_cases=[c for c in ok_cases if c.target in ("jsonschema", "xsd") and c.model in ("multi", "sets") + tuple(r.model for r in rand)],
+        tree_cases=trees + [c for c in bad_cases if c.model in ("bad_keys", "missing_snippets", "two_errors")],
+        bad_cases=[c for c in bad_cases if c not in trees],
+        extra_ok=[c for c in fixt if c.model != "aas_core_meta.v3"] if thorough else [c for c in rand if c.target != "python"],
+        thorough=thorough,
+    )
+    n_enum1 = len(batches)
     batches += plan_batches(ctx, ok_cases, bad_cases, donors, thorough)
     ml = multi_cases()[TARGETS.index("python")]
     ctx.extra_cov["natural_listing_of_multi_python_snippets"] = natural_listing(ml.snippets)[:12]
@@ -1055,13 +1601,14 @@ def oracle(ctx: Ctx) -> None:
     ctx.extra_cov["variation_wall_s"] = round(time.time() - t1, 1)
     reported = set()
     for bi, b in enumerate(batches):
-        stream = "corpus" if bi < n_corpus else ("cli" if b.cli else "in-process")
+        stream = "corpus" if bi < n_corpus else ("enumerated" if n_enum0 <= bi < n_enum1 else ("cli" if b.cli else "in-process"))
         for pos, st in enumerate(b.steps):
             c = st.case
             key = (c.id, b.hashseed, json.dumps({k: v for k, v in st.var.items() if k != "rseed"}, sort_keys=True, default=str), b.cli)
             ctx.count(key, nontrivial=True, stream="oracle:" + stream + (":failing-input" if c.failing else ""))
             for a in st.axes():
-                ctx.hit("axis:" + a + (":" + str(st.var[a]).split(":")[0] if a in ("prepop", "listing", "snipcopy") else ""))
+                v = str(st.var[a])
+                ctx.hit("axis:" + a + (":" + (v if a != "listing" else v.split(":")[0]) if a in ("prepop", "listing", "snipcopy") else ""))
             ctx.hit("axis:hashseed:" + b.hashseed)
             if pos > 0:
                 ctx.hit("axis:history(not first in its process)")
@@ -1256,6 +1803,8 @@ def correspond(ctx: Ctx) -> None:
             other = impl_definition_keys(list(reversed(names)))
             if other != keys:
                 ctx.fail({"classes": names}, f"definitions keys {keys} vs {other} for the reversed declaration order", "C22:definitions-order-follows-declaration")
+    # ---- the writing statement of every back end on a used path vs. the model's writeFile
+    correspond_write_sites(ctx)
     # ---- schemas of the fixtures are sorted as the model predicts
     for t, fname in (("jsonschema", "schema.json"), ("xsd", "schema.xsd")):
         base = REPO / "dev/test_data/main" / t / "expected"
@@ -1280,6 +1829,85 @@ def correspond(ctx: Ctx) -> None:
                 ident = ",".join(str(i) for i in range(len(elts))) or "[]"
                 if want != ident:
                     ctx.disagree("golden-schema.xsd", {"file": str(p.relative_to(REPO))}, ident, want)
+
+
+def _b2t(data: bytes) -> str:
+    """bytes as a text of code points < 256 (the model's files are lists of numbers)"""
+    return data.decode("latin-1")
+
+
+def run_write_site(site: Dict[str, Any], directory: pathlib.Path, before: Optional[bytes], text: str) -> Any:
+    """Evaluate the writing call of a back end (compiled from the source under test) on ``directory/owned.txt``
+    holding ``before``; returns (bytes of the owned file, bytes of the foreign file) or a crash name."""
+    import importlib
+    import types
+
+    node: ast.Call = site["node"]
+    recv = site["recv"]
+    if recv is None or not node.args:
+        return "not-evaluable"
+    shutil.rmtree(directory, ignore_errors=True)
+    directory.mkdir(parents=True)
+    owned, foreign = directory / "owned.txt", directory / "foreign.txt"
+    foreign.write_bytes(b"foreign\r\n")
+    if before is not None:
+        owned.write_bytes(before)
+    env: Dict[str, Any] = {recv: owned}
+    arg0 = node.args[0]
+    if isinstance(arg0, ast.Name):
+        env[arg0.id] = text
+    elif isinstance(arg0, ast.Attribute) and isinstance(arg0.value, ast.Name):
+        env[arg0.value.id] = types.SimpleNamespace(**{arg0.attr: text})
+    else:
+        return "not-evaluable"
+    for n in ast.walk(node):
+        if isinstance(n, ast.Name) and n.id not in env and n.id not in dir(__import__("builtins")):
+            try:
+                env[n.id] = importlib.import_module(f"aas_core_codegen.{n.id}")
+            except Exception:  # noqa
+                return "not-evaluable"
+    try:
+        eval(compile(ast.fix_missing_locations(ast.Expression(body=node)), f"<write site of {site['target']}>", "eval"), env)
+    except BaseException as e:  # noqa
+        return crash_name(e)
+    return (owned.read_bytes() if owned.is_file() else None, foreign.read_bytes() if foreign.is_file() else None)
+
+
+def correspond_write_sites(ctx: Ctx) -> None:
+    try:
+        sites = scan_write_sites(REPO)
+    except ExtractError:
+        return  # reported by the extraction stage
+    texts = ["a\nb\n", "", "x\r\ny", "ä€😀\n\tz \n"]
+    work = ctx.scratch() / "write_sites"
+    rows = []
+    for site in sites:
+        for text in texts:
+            new = text.encode("utf-8")
+            for label in ["absent"] + [k for k in PREV_KINDS if k not in ("perm", "symlink")] + ["other"]:
+                before = None if label == "absent" else (b"something else entirely\n" if label == "other" else _alter(label, new))
+                rows.append((site, text, label, before, new))
+    lines = []
+    for site, text, label, before, new in rows:
+        hp = ["owned.txt", "foreign.txt"] if before is not None else ["foreign.txt"]
+        hc = ([_b2t(before)] if before is not None else []) + [_b2t(b"foreign\r\n")]
+        lines.append(f"outdir {enc_list(hp)} {enc_list(hc)} {enc_list(['owned.txt'])} {enc_list([_b2t(new)])} {enc_list(['owned.txt', 'foreign.txt'])}")
+    answers = ctx.model(lines)
+    for (site, text, label, before, new), want in zip(rows, answers):
+        got = run_write_site(site, work, before, text)
+        ctx.count(("write-site", site["target"], text, label), nontrivial=before is not None, stream="write-site")
+        ctx.hit("write-site:history:" + label)
+        ctx.traces_validated += 1
+        if isinstance(got, str):
+            got_w = got
+        else:
+            got_w = enc_list([("1" + _b2t(x)) if x is not None else "0" for x in got])
+        if got_w != want:
+            inp = {"write_site": site["target"], "text": text, "before": None if before is None else before.hex()}
+            ctx.disagree("write-site", inp, got_w, want)
+            # the statement's direct reading: afterwards the owned file holds exactly the new bytes, the foreign file what it held
+            if got != (new, b"foreign\r\n"):
+                ctx.fail(inp, f"the writing statement of {site['target']}/main.py:{site['function']} on a file holding {before!r} leaves {got!r} instead of {new!r}: the output depends on the pre-existing file", f"C22:write-site:{site['target']}")
 
 
 def judge_xsd(elts: List[Tuple[str, Optional[str]]], got: Any) -> List[Tuple[str, str]]:
@@ -1315,17 +1943,29 @@ def replay(ctx: Ctx, data: Dict[str, Any]) -> Any:
         if ctx.driver_ok:
             res["model"] = dec_list(ctx.model([f"sorttexts {enc_list(inp['enum_values'])}"])[0])
         return res
+    if "write_site" in inp:
+        before = None if inp["before"] is None else bytes.fromhex(inp["before"])
+        new = inp["text"].encode("utf-8")
+        out = {}
+        for site in scan_write_sites(REPO):
+            if site["target"] == inp["write_site"]:
+                got = run_write_site(site, ctx.scratch() / "write_sites", before, inp["text"])
+                out[site["function"]] = {"impl": repr(got), "oracle": "ok" if got == (new, b"foreign\r\n") else "DEPENDS ON THE PRE-EXISTING FILE"}
+        return out
     if "classes" in inp:
         a, b = impl_definition_keys(inp["classes"]), impl_definition_keys(list(reversed(inp["classes"])))
         return {"impl": a, "impl_reversed_declaration": b, "oracle": "same" if a == b else "DIFFERENT"}
-    case = case_from_json(inp["case"])
+    case = case_from_json(inp["case"]).materialize(ctx)
     var = dict(inp["variation"])
     hs = str(var.pop("hashseed", "0"))
     cli = var.pop("cli", None) or inp.get("cli")
     runner = Runner(ctx)
-    runner.references([case])
-    st = Step(case, var)
-    runner.run_batches([Batch("replay", hs, [st], cli=cli)])
+    try:
+        runner.references([case])
+        st = Step(case, var)
+        runner.run_batches([Batch("replay", hs, [st], cli=cli)])
+    finally:
+        runner.cleanup()
     ref = runner.refs[case.id]
     return {
         "reference": {"rc": ref["rc"], "stdout": ref["stdout"], "stderr": ref["stderr"], "files": len(ref["tree"])},
